@@ -9,7 +9,7 @@ CONSTANTS
   EmitOps = TRUE
   AllowNTL = TRUE
   TwoWrites = TRUE
-  AllowNil = FALSE
+  AllowNil = TRUE
 INVARIANTS StateInv NoFuture
 PROPERTY Refines
 ACTION_CONSTRAINT Emit
